@@ -445,9 +445,10 @@ RelRowOps ==
                singles == {<<x>> : x \in R}
                allBs == SetToSeq(sets)
                singleBs == SetToSeq(singles)
-           IN {RO("TestRelationRow", [res |-> ByH(r), A |-> A, Bs |-> IF P2 >= 2 THEN allBs ELSE singleBs, o |-> o]) :
+           IN {RO("TestRelationRow", [res |-> ByH(r), A |-> A, Bs |-> IF P2 >= 2 THEN allBs ELSE singleBs, o |-> o, sorted |-> srt]) :
+                    srt \in (IF P2 >= 2 THEN BOOLEAN ELSE {FALSE}),
                     A \in (IF P2 >= 2 THEN sets ELSE singles), o \in OpVariants}
-              \cup {RO("TestRelationRow", [res |-> ByH(r), A |-> A, Bs |-> IF P2 >= 2 THEN allBs ELSE singleBs, o |-> o]) : A \in singles, o \in LimitVariants}
+              \cup {RO("TestRelationRow", [res |-> ByH(r), A |-> A, Bs |-> IF P2 >= 2 THEN allBs ELSE singleBs, o |-> o, sorted |-> FALSE]) : A \in singles, o \in LimitVariants}
           : r \in LiveRes(st)}
 
 RelatedOps ==
